@@ -53,6 +53,26 @@ Theorem c11_get_exact hash size ops k now ch :
 Proof. exact (get_exact hash size ops k now ch). Qed.
 Print Assumptions c11_get_exact.
 
+(** ** pkg/lru and pkg/concurrent_lru (ShardedLRU): bounded and exact, sequentially *)
+(** after any operation list (Add/Get/Del/Clean/Len/Flush) no shard holds more than maxSize
+    entries ... *)
+Theorem c11_lru_bounded hash n max ops i :
+  0 < n -> 0 < max ->
+  (length (sl_sh (fst (lrun_ops hash (slru_new n max) ops)) i) <= N.to_nat max)%nat.
+Proof. exact (lru_bounded hash n max ops i). Qed.
+Print Assumptions c11_lru_bounded.
+
+(** ... and a Get returns nothing, or the value of the LATEST Add under that key that was not
+    deleted, cleaned or flushed since -- never an overwritten one. *)
+Theorem c11_lru_get_latest hash n max ops k :
+  0 < n -> 0 < max ->
+  let s := fst (lrun_ops hash (slru_new n max) ops) in
+  let a := larun (fun _ => None) ops in
+  snd (lexec hash s (LGet k)) = (LRGet None, []) \/
+  exists v, a k = Some v /\ snd (lexec hash s (LGet k)) = (LRGet (Some v), []).
+Proof. exact (lru_get_latest hash n max ops k). Qed.
+Print Assumptions c11_lru_get_latest.
+
 (** ** Safe under concurrency *)
 (** For EVERY interleaving: a lookup of [k] that thread [t] began at position [pg] and that
     returned (v, e) at position [qg]
@@ -94,9 +114,14 @@ Theorem c11_lock_discipline tbl ls s t1 r1 t2 r2 :
 Proof. exact (lock_discipline tbl ls s t1 r1 t2 r2). Qed.
 Print Assumptions c11_lock_discipline.
 
-(** ... and the lock table regenerated from the source on this run is accepted. *)
-Theorem c11_lock_table_sound : check_locks LockFacts.table = true.
-Proof. exact (lock_table_ok_by LockFacts.table (eq_refl true)). Qed.
+(** ... and the tables regenerated from the source on this run are accepted: every map write
+    is under Lock, every read under RLock/Lock (table), and every function above the shards
+    (Map.Set, Map.Get, ...) takes a shard's lock at most once on any path and never touches the
+    map itself (callers) -- which is what makes "one shard method = one atomic step" of the
+    concurrent model the right granularity for Map.Set/Get/Del. *)
+Theorem c11_lock_table_sound :
+  check_locks LockFacts.table = true /\ check_callers LockFacts.callers = true.
+Proof. exact (lock_facts_ok_by LockFacts.table LockFacts.callers (eq_refl true)). Qed.
 Print Assumptions c11_lock_table_sound.
 
 (** ** Non-vacuity *)
@@ -129,3 +154,17 @@ Example c11_lock_check_rejects :
                              then (lr_name r, 1, true, true, false, true) else r) LockFacts.table) = false
   /\ existsb (fun r => String.eqb (lr_name r) (nth 4 required_methods String.EmptyString)) LockFacts.table = true.
 Proof. vm_compute. split; reflexivity. Qed.
+
+(** a Set that checks presence under one acquisition and writes under another is refused *)
+Example c11_caller_check_rejects :
+  check_callers (map (fun r => if String.eqb (fst (fst r)) (nth 1 required_callers (fst (fst r)))  (* "Map.Set" *)
+                               then (fst (fst r), 2, false) else r) LockFacts.callers) = false
+  /\ check_callers LockFacts.callers = true.
+Proof. vm_compute. split; reflexivity. Qed.
+
+(** the LRU model: overwriting the newest entry replaces its value; the third key of a
+    two-entry shard evicts the oldest *)
+Example c11_nonvacuous_lru :
+  map fst (snd (lrun_ops (fun k => k) (slru_new 1 2) [LAdd 4 1; LAdd 4 2; LGet 4; LAdd 8 1; LAdd 12 1; LGet 4; LLen]))
+  = [LRUnit; LRUnit; LRGet (Some 2); LRUnit; LRUnit; LRGet None; LRNum 2].
+Proof. vm_compute. reflexivity. Qed.
